@@ -1,6 +1,7 @@
 package main
 
 import (
+	"bytes"
 	"encoding/hex"
 	"fmt"
 	"reflect"
@@ -46,6 +47,7 @@ func runC18(r *Result, d *drv.Driver, tier string, seed int64, replay string) {
 	for i := 0; i < n; i++ {
 		r.distinctSet[strconv.Itoa(i)] = true
 	}
+	c18StructTagsStable(r, seed)
 	// samples: what the real encoder emits for a few annotations
 	for _, name := range []string{"UNIQUE_IDENTIFIER", "REQUEST_MESSAGE", "SENSITIVE"} {
 		r.sample(map[string]string{"annotation": name, "real_encode": encodeWithAnnotation(name)})
@@ -140,9 +142,24 @@ func c19Wire(r *Result, seed int64, tier string) {
 	for _, n := range names {
 		t := types[n]
 		fields := render.Fields(t)
+		hasDyn := false
+		for _, f := range fields {
+			if f.Type.Kind() == reflect.Interface && !f.Skip {
+				hasDyn = true
+			}
+		}
 		for k := 0; k < per; k++ {
 			p := g.NewStruct(t)
 			topUp(p.Elem(), 0)
+			if hasDyn && k%3 == 2 {
+				// the dynamically typed fields left nil: whatever Encode makes of that (it refuses a required one), anything it
+				// does write must sit under the right tag at the right level
+				for _, f := range fields {
+					if f.Type.Kind() == reflect.Interface && !f.Skip {
+						p.Elem().Field(f.Index).Set(reflect.Zero(f.Type))
+					}
+				}
+			}
 			res, b, _ := realEncode(p.Interface())
 			r.Evaluations++
 			if !strings.HasPrefix(res, "ok") {
@@ -261,4 +278,73 @@ func topUp(v reflect.Value, depth int) {
 			}
 		}
 	}
+}
+
+// c18StructTagsStable: the number a struct-level `Tag` annotation resolves to (as seen on the wire when the struct is encoded
+// at top level) is the constant of that name - before AND after the same types have been written and read under OTHER tags
+// (Name / Digest as attribute values, Template-Attribute under the three Create Key Pair tags, credentials): resolution of a
+// tag name must not depend on what the process did earlier.
+func c18StructTagsStable(r *Result, seed int64) {
+	tagNum := map[string]uint32{}
+	for _, c := range gentab.Consts {
+		if c.Typ == "Tag" {
+			tagNum[c.Name] = uint32(c.Num)
+		}
+	}
+	types := gen.StructTypes()
+	names := make([]string, 0, len(types))
+	for n := range types {
+		names = append(names, n)
+	}
+	sort.Strings(names)
+	g := gen.New(seed + 1818)
+	g.WF = true
+	observe := func(phase string) {
+		for _, n := range names {
+			t := types[n]
+			own := ""
+			for i := 0; i < t.NumField(); i++ {
+				if t.Field(i).Type == reflect.TypeOf(kmip.Tag(0)) {
+					own = strings.SplitN(t.Field(i).Tag.Get("kmip"), ",", 2)[0]
+				}
+			}
+			if own == "" {
+				continue
+			}
+			p := g.NewStruct(t)
+			topUp(p.Elem(), 0)
+			res, b, _ := realEncode(p.Interface())
+			r.Evaluations++
+			if !strings.HasPrefix(res, "ok") || len(b) < 3 {
+				continue
+			}
+			got := uint32(b[0])<<16 | uint32(b[1])<<8 | uint32(b[2])
+			r.Stats["struct-tag-observations"]++
+			if got != tagNum[own] {
+				r.find(Finding{Kind: "violation", What: "the struct-level annotation of " + n + " (" + own + ") does not resolve to the constant of that name (" + phase + ")",
+					Input: map[string]string{"type": n, "annotation": own, "phase": phase}, Expect: fmt.Sprintf("%06x", tagNum[own]), Actual: fmt.Sprintf("%06x", got)})
+			}
+		}
+	}
+	observe("fresh")
+	// the same types under other tags, encoded and decoded
+	hist := []interface{}{
+		&kmip.Attribute{Name: "Name", Value: kmip.Name{Value: "k", Type: 1}},
+		&kmip.Attribute{Name: "Digest", Value: kmip.Digest{HashingAlgorithm: 6, DigestValue: []byte{1}}},
+		&kmip.CreateKeyPairRequest{CommonTemplateAttribute: kmip.TemplateAttribute{Attributes: []kmip.Attribute{{Name: "State", Value: kmip.Enum(1)}}},
+			PrivateKeyTemplateAttribute: kmip.TemplateAttribute{Attributes: []kmip.Attribute{{Name: "State", Value: kmip.Enum(2)}}},
+			PublicKeyTemplateAttribute:  kmip.TemplateAttribute{Attributes: []kmip.Attribute{{Name: "State", Value: kmip.Enum(3)}}}},
+		&kmip.Authentication{CredentialType: kmip.CREDENTIAL_TYPE_USERNAME_AND_PASSWORD, CredentialValue: kmip.CredentialUsernamePassword{Username: "u", Password: "p"}},
+	}
+	for _, h := range hist {
+		_, b, _ := realEncode(h)
+		if len(b) > 0 {
+			tgt := reflect.New(reflect.TypeOf(h).Elem())
+			func() {
+				defer func() { _ = recover() }()
+				_ = kmip.NewDecoder(bytes.NewReader(b)).Decode(tgt.Interface())
+			}()
+		}
+	}
+	observe("after the same types were written and read under other tags")
 }
